@@ -35,10 +35,10 @@ func TestAnchors(t *testing.T) {
 		t.Fatalf("discontinuity playlist parsed as %+v, %v", pl, err)
 	}
 	for _, bad := range []string{
-		"",                              // nothing
-		"#EXT-X-VERSION:3\n#EXTM3U\n",   // EXTM3U not first
+		"",                                     // nothing
+		"#EXT-X-VERSION:3\n#EXTM3U\n",          // EXTM3U not first
 		"\n#EXTM3U\n#EXT-X-TARGETDURATION:1\n", // blank line first
-		"#EXTM3U\n#EXTINF:1.0,\na.ts\n", // no target duration
+		"#EXTM3U\n#EXTINF:1.0,\na.ts\n",        // no target duration
 		"#EXTM3U\n#EXT-X-TARGETDURATION:1.5\n#EXTINF:1.0,\na.ts\n", // target duration must be an integer
 		"#EXTM3U\n#EXT-X-TARGETDURATION:2\na.ts\n",                 // segment without EXTINF
 		"#EXTM3U\n#EXT-X-TARGETDURATION:2\n#EXTINF:-1,\na.ts\n",    // signed duration
